@@ -10,6 +10,10 @@ CHECKS = {
          "Every input of five exhaustively enumerated families (all prefixes of all repository scripts, token-level mutants at every token position, all token sequences up to length 3/4 over the full 72-kind vocabulary, nesting ladders and limit-sized programs, valid programs with a stray closer at every position) is compiled by the real compiler in a crash-isolated child; outcome must be Ok xor located CompileError, never panic/hang; accepted functions must be structurally valid code.",
          "Trusts: the runner's panic/crash/timeout capture; M-vm's stack-effect table (bound to the compiler by C04's conformance run). Bounded: inputs outside the families are not covered.",
          "5/C03"),
+ "C05": ("bounded-exhaustive program enumeration, every case executed on the real interpreter and compared with the reference evaluator M-eval",
+         "Every program of families E1-E5 (operator x operand-kind pairs, all operator chains of 3/4 operands in every grouping with minimal and full parentheses, evaluation-order probes, every statement tree up to 4/5 nodes on every input vector) is run on the real VM (fresh interpreter per program, crash-isolated) and must print the lines and end with the outcome/error class M-eval computes; disagreements are confirmed twice in isolation.",
+         "Trusts M-eval as the language definition (DESIGN.md Appendix A; it agreed with the implementation on every enumerated case when written). Bounded by program size.",
+         "5/C05"),
 }
 NOT_YET = "check not built yet in this revision of /verif (work in progress; see DESIGN.md section 10)"
 
